@@ -1,6 +1,317 @@
 //! Worker-side entry points for C18 (game assets and archives).
-use crate::engine::worker::EntryFn;
+use crate::engine::worker::{EntryFn, Env};
+use crate::props::entries::write_tree;
+use std::os::unix::ffi::OsStrExt;
+use std::path::{Path, PathBuf};
 
-pub fn lookup(_name: &str) -> Option<EntryFn> {
-    None
+pub fn lookup(name: &str) -> Option<EntryFn> {
+    Some(match name {
+        "mdl" => e_mdl,
+        "mtrl" => e_mtrl,
+        "shpk" => e_shpk,
+        "tex" => e_tex,
+        "exh" => e_exh,
+        "exd" => e_exd,
+        "sklb" => e_sklb,
+        "pbd" => e_pbd,
+        "cmp" => e_cmp,
+        "tera" => e_tera,
+        "stm" => e_stm,
+        "dic" => e_dic,
+        "lgb" => e_lgb,
+        "avfx" => e_avfx,
+        "uld" => e_uld,
+        "sgb" => e_sgb,
+        "scd" => e_scd,
+        "hwc" => e_hwc,
+        "iwc" => e_iwc,
+        "tmb" => e_tmb,
+        "skp" => e_skp,
+        "schd" => e_schd,
+        "phyb" => e_phyb,
+        "pap" => e_pap,
+        "sqdb" => e_sqdb,
+        "index" => e_index,
+        "dat" => e_dat,
+        "gamedata" => e_gamedata,
+        _ => return None,
+    })
+}
+
+fn arg<'a>(a: &'a [Vec<u8>], i: usize) -> &'a [u8] {
+    a.get(i).map(|v| v.as_slice()).unwrap_or(&[])
+}
+
+macro_rules! simple {
+    ($name:ident, $ty:path) => {
+        fn $name(a: &[Vec<u8>], _: &mut Env) -> Result<bool, String> {
+            Ok(<$ty>::from_existing(arg(a, 0)).is_some())
+        }
+    };
+}
+
+simple!(e_mdl, physis::model::MDL);
+simple!(e_mtrl, physis::mtrl::Material);
+simple!(e_tex, physis::tex::Texture);
+simple!(e_exh, physis::exh::EXH);
+simple!(e_sklb, physis::skeleton::Skeleton);
+simple!(e_cmp, physis::cmp::CMP);
+simple!(e_stm, physis::stm::StainingTemplate);
+simple!(e_dic, physis::dic::Dictionary);
+simple!(e_lgb, physis::layer::LayerGroup);
+simple!(e_avfx, physis::avfx::Avfx);
+simple!(e_uld, physis::uld::Uld);
+simple!(e_sgb, physis::sgb::Sgb);
+simple!(e_scd, physis::scd::Scd);
+simple!(e_hwc, physis::hwc::Hwc);
+simple!(e_iwc, physis::iwc::Iwc);
+simple!(e_tmb, physis::tmb::Tmb);
+simple!(e_skp, physis::skp::Skp);
+simple!(e_schd, physis::schd::Schd);
+simple!(e_phyb, physis::phyb::Phyb);
+simple!(e_pap, physis::pap::Pap);
+simple!(e_sqdb, physis::sqpack::SqPackDatabase);
+
+fn e_tera(a: &[Vec<u8>], _: &mut Env) -> Result<bool, String> {
+    match physis::tera::Terrain::from_existing(arg(a, 0)) {
+        Some(t) => {
+            let _ = t.write_to_buffer();
+            Ok(true)
+        }
+        None => Ok(false),
+    }
+}
+
+fn e_shpk(a: &[Vec<u8>], _: &mut Env) -> Result<bool, String> {
+    match physis::shpk::ShaderPackage::from_existing(arg(a, 0)) {
+        Some(s) => {
+            // every selector the package lists, plus absent ones
+            let mut sels: Vec<u32> = s.nodes.iter().map(|n| n.selector).take(64).collect();
+            sels.extend_from_slice(&[0, 1, u32::MAX, 0x8000_0000]);
+            for sel in sels {
+                let _ = s.find_node(sel);
+            }
+            Ok(true)
+        }
+        None => Ok(false),
+    }
+}
+
+/// arg0: EXH bytes, arg1: EXD bytes. Rows are read for every id the page's index lists (decoded here from the
+/// bytes), every id of the header's pages (capped) and some absent ones.
+fn e_exd(a: &[Vec<u8>], _: &mut Env) -> Result<bool, String> {
+    let exh = match physis::exh::EXH::from_existing(arg(a, 0)) {
+        Some(e) => e,
+        None => return Ok(false),
+    };
+    let b = arg(a, 1);
+    let exd = match physis::exd::EXD::from_existing(b) {
+        Some(e) => e,
+        None => return Ok(false),
+    };
+    let mut ids: Vec<u32> = vec![0, 1, 2, u32::MAX, 0x7FFF_FFFF];
+    if b.len() >= 32 {
+        let index_size = u32::from_be_bytes([b[8], b[9], b[10], b[11]]) as usize;
+        let n = (index_size / 8).min(256);
+        for i in 0..n {
+            let at = 32 + 8 * i;
+            if at + 4 <= b.len() {
+                ids.push(u32::from_be_bytes([b[at], b[at + 1], b[at + 2], b[at + 3]]));
+            }
+        }
+    }
+    for p in exh.pages.iter().take(4) {
+        for k in 0..p.row_count.min(32) {
+            ids.push(p.start_id.wrapping_add(k));
+        }
+    }
+    ids.sort();
+    ids.dedup();
+    let mut any = false;
+    for id in ids {
+        if exd.read_row(&exh, id).is_some() {
+            any = true;
+        }
+    }
+    let _ = any;
+    Ok(true)
+}
+
+/// deform matrices for all ordered pairs of the body ids found in the item table (decoded here), plus absent ids
+fn e_pbd(a: &[Vec<u8>], _: &mut Env) -> Result<bool, String> {
+    let b = arg(a, 0);
+    let pbd = match physis::pbd::PreBoneDeformer::from_existing(b) {
+        Some(p) => p,
+        None => return Ok(false),
+    };
+    let mut ids: Vec<u16> = vec![0, 101, 0xFFFF];
+    if b.len() >= 4 {
+        let n = (i32::from_le_bytes([b[0], b[1], b[2], b[3]]).max(0) as usize).min(24);
+        for i in 0..n {
+            let at = 4 + 12 * i;
+            if at + 2 <= b.len() {
+                ids.push(u16::from_le_bytes([b[at], b[at + 1]]));
+            }
+        }
+    }
+    ids.sort();
+    ids.dedup();
+    for f in &ids {
+        for t in &ids {
+            let _ = pbd.get_deform_matrices(*f, *t);
+        }
+    }
+    Ok(true)
+}
+
+fn queries(a: &[u8]) -> Vec<String> {
+    String::from_utf8_lossy(a).split('\n').filter(|s| !s.is_empty()).map(|s| s.to_string()).collect()
+}
+
+/// arg0: index file bytes; arg1: newline-separated paths; arg2: fault (1: path missing, 2: path is a directory)
+fn e_index(a: &[Vec<u8>], env: &mut Env) -> Result<bool, String> {
+    let dir = env.fresh_dir("ix")?;
+    let p = dir.join("0a0000.win32.index");
+    match arg(a, 2).first().copied().unwrap_or(0) {
+        1 => {}
+        2 => std::fs::create_dir_all(&p).map_err(|e| e.to_string())?,
+        _ => std::fs::write(&p, arg(a, 0)).map_err(|e| e.to_string())?,
+    }
+    let r = physis::sqpack::SqPackIndex::from_existing(&p.to_string_lossy());
+    let ok = match r {
+        Some(ix) => {
+            for q in queries(arg(a, 1)) {
+                let _ = ix.exists(&q);
+                let _ = ix.find_entry(&q);
+            }
+            true
+        }
+        None => false,
+    };
+    let _ = std::fs::remove_dir_all(&dir);
+    Ok(ok)
+}
+
+/// arg0: dat file bytes; arg1: u64 LE offsets to read from; arg2: fault (1: path missing, 2: path is a directory)
+fn e_dat(a: &[Vec<u8>], env: &mut Env) -> Result<bool, String> {
+    let dir = env.fresh_dir("dat")?;
+    let p = dir.join("0a0000.win32.dat0");
+    match arg(a, 2).first().copied().unwrap_or(0) {
+        1 => {}
+        2 => std::fs::create_dir_all(&p).map_err(|e| e.to_string())?,
+        _ => std::fs::write(&p, arg(a, 0)).map_err(|e| e.to_string())?,
+    }
+    let r = physis::sqpack::SqPackData::from_existing(&p.to_string_lossy());
+    let ok = match r {
+        Some(mut d) => {
+            let mut any = false;
+            for c in arg(a, 1).chunks_exact(8) {
+                let off = u64::from_le_bytes(c.try_into().unwrap());
+                if d.read_from_offset(off).is_some() {
+                    any = true;
+                }
+            }
+            any
+        }
+        None => false,
+    };
+    let _ = std::fs::remove_dir_all(&dir);
+    Ok(ok)
+}
+
+/// One line per fault: `T <path> <n>` truncate, `R <path>` remove file, `X <path>` remove directory tree,
+/// `S <path> <offset> <hex>` overwrite bytes, `D <path>` create directory, `W <path> <hex>` write file,
+/// `d <hex path>` create a directory whose name is given as hex bytes (non-UTF-8 names)
+fn apply_faults(root: &Path, recipe: &[u8]) -> Result<(), String> {
+    for line in String::from_utf8_lossy(recipe).split('\n') {
+        let parts: Vec<&str> = line.split(' ').collect();
+        if parts.len() < 2 {
+            continue;
+        }
+        let p = root.join(parts[1]);
+        match parts[0] {
+            "T" => {
+                let n: u64 = parts.get(2).and_then(|x| x.parse().ok()).unwrap_or(0);
+                if let Ok(f) = std::fs::OpenOptions::new().write(true).open(&p) {
+                    let _ = f.set_len(n);
+                }
+            }
+            "R" => {
+                let _ = std::fs::remove_file(&p);
+            }
+            "X" => {
+                let _ = std::fs::remove_dir_all(&p);
+            }
+            "S" => {
+                let off: u64 = parts.get(2).and_then(|x| x.parse().ok()).unwrap_or(0);
+                let bytes = crate::engine::util::unhex(parts.get(3).copied().unwrap_or("")).unwrap_or_default();
+                use std::io::{Seek, SeekFrom, Write};
+                if let Ok(mut f) = std::fs::OpenOptions::new().write(true).open(&p) {
+                    let _ = f.seek(SeekFrom::Start(off));
+                    let _ = f.write_all(&bytes);
+                }
+            }
+            "D" => {
+                let _ = std::fs::create_dir_all(&p);
+            }
+            "W" => {
+                if let Some(parent) = p.parent() {
+                    let _ = std::fs::create_dir_all(parent);
+                }
+                let bytes = crate::engine::util::unhex(parts.get(2).copied().unwrap_or("")).unwrap_or_default();
+                let _ = std::fs::write(&p, bytes);
+            }
+            "d" => {
+                let bytes = crate::engine::util::unhex(parts[1]).unwrap_or_default();
+                let mut q = PathBuf::from(root);
+                for comp in bytes.split(|b| *b == b'/') {
+                    q.push(std::ffi::OsStr::from_bytes(comp));
+                }
+                let _ = std::fs::create_dir_all(&q);
+            }
+            _ => return Err(format!("unknown fault op {}", parts[0])),
+        }
+    }
+    Ok(())
+}
+
+/// arg0: packed installation tree (rooted at the directory that contains `game/`); arg1: newline-separated
+/// queries; arg2: faults applied before the installation is opened; arg3: faults applied after it was opened and
+/// queried once (so index files are cached and dat files have been read); arg4: mode (1: game directory missing,
+/// 2: game directory is a regular file)
+fn e_gamedata(a: &[Vec<u8>], env: &mut Env) -> Result<bool, String> {
+    use physis::common::Platform;
+    let dir = env.fresh_dir("gd")?;
+    let game = dir.join("game");
+    match arg(a, 4).first().copied().unwrap_or(0) {
+        1 => {}
+        2 => std::fs::write(&game, b"x").map_err(|e| e.to_string())?,
+        _ => {
+            write_tree(&dir, arg(a, 0))?;
+            apply_faults(&dir, arg(a, 2))?;
+        }
+    }
+    let qs = queries(arg(a, 1));
+    let r = physis::gamedata::GameData::from_existing(Platform::Win32, &game.to_string_lossy());
+    let ok = match r {
+        Some(mut g) => {
+            let mut round = |g: &mut physis::gamedata::GameData| {
+                for q in &qs {
+                    let _ = g.exists(q);
+                    let _ = g.find_offset(q);
+                    let _ = g.extract(q);
+                }
+            };
+            round(&mut g);
+            if !arg(a, 3).is_empty() {
+                apply_faults(&dir, arg(a, 3))?;
+                round(&mut g);
+            }
+            let _ = g.get_all_sheet_names();
+            true
+        }
+        None => false,
+    };
+    let _ = std::fs::remove_dir_all(&dir);
+    Ok(ok)
 }
